@@ -5,7 +5,7 @@
 
 use crate::cage::Cage;
 use crate::common::*;
-use crate::elem::{Class, Key, Val};
+use crate::elem::{Class, Cls, Key, Val};
 use crate::ledger;
 use micromap::{Entry, Map, Set};
 use serde_json::{json, Value};
@@ -17,7 +17,7 @@ use std::fmt::Write as _;
 #[derive(Clone, Copy, Debug)]
 pub struct KO {
     pub serial: u32,
-    pub class: u8,
+    pub class: Cls,
     pub ver: u8,
     pub addr: usize,
 }
@@ -349,7 +349,7 @@ pub fn observe_map<const N: usize>(m: &Map<Key, Val, N>) -> Vec<(KO, VO)> {
 
 macro_rules! by_form {
     ($ctx:expr, $op:expr, |$q:ident| $body:expr) => {{
-        let c = i($op, "c") as u8;
+        let c = i($op, "c") as Cls;
         if i($op, "form") == 0 {
             let pk = Key::new(c, 7);
             let r = {
@@ -536,7 +536,7 @@ pub fn exec_map<const N: usize>(cage: &mut Cage<Map<Key, Val, N>>, op: &Value, c
             }
         }
         "retain" => {
-            let keep: Vec<u8> = op["keep"].as_array().unwrap().iter().map(|x| x.as_u64().unwrap() as u8).collect();
+            let keep: Vec<Cls> = op["keep"].as_array().unwrap().iter().map(|x| x.as_u64().unwrap() as Cls).collect();
             let m = &mut cage.m;
             match call(ctx, || {
                 m.retain(|k, v| {
@@ -582,7 +582,7 @@ pub fn exec_map<const N: usize>(cage: &mut Cage<Map<Key, Val, N>>, op: &Value, c
         "cursor" => exec_cursor(cage, op, ctx),
         "entry" => exec_entry(cage, op, ctx),
         "disjoint" => {
-            let ks: Vec<u8> = op["ks"].as_array().unwrap().iter().map(|x| x.as_u64().unwrap() as u8).collect();
+            let ks: Vec<Cls> = op["ks"].as_array().unwrap().iter().map(|x| x.as_u64().unwrap() as Cls).collect();
             let unchecked = op["unchecked"].as_bool().unwrap_or(false);
             match ks.len() {
                 0 => disjoint::<N, 0>(cage, &ks, w, unchecked, ctx),
@@ -664,7 +664,7 @@ pub fn exec_map<const N: usize>(cage: &mut Cage<Map<Key, Val, N>>, op: &Value, c
         "clone_from" => {
             let mut dst = Cage::new(Map::<Key, Val, N>::new());
             for (idx, e) in op["dst"].as_array().unwrap().iter().enumerate() {
-                let k = Key::new(e["c"].as_u64().unwrap() as u8, e["r"].as_u64().unwrap() as u8);
+                let k = Key::new(e["c"].as_u64().unwrap() as Cls, e["r"].as_u64().unwrap() as u8);
                 let v = Val::new(e["v"].as_u64().unwrap() as u8);
                 ctx.tags.bind_k(60 + idx as i64 + 1, k.serial);
                 ctx.tags.bind_v(60 + idx as i64 + 1, v.serial);
@@ -1037,7 +1037,7 @@ fn exec_entry<const N: usize>(cage: &mut Cage<Map<Key, Val, N>>, op: &Value, ctx
 
 fn disjoint<const N: usize, const J: usize>(
     cage: &mut Cage<Map<Key, Val, N>>,
-    ks: &[u8],
+    ks: &[Cls],
     w: i64,
     unchecked: bool,
     ctx: &mut Ctx,
@@ -1213,7 +1213,7 @@ pub fn exec_set<const N: usize>(cage: &mut Cage<Set<Key, N>>, op: &Value, ctx: &
             }
         }
         "s_retain" => {
-            let keep: Vec<u8> = op["keep"].as_array().unwrap().iter().map(|x| x.as_u64().unwrap() as u8).collect();
+            let keep: Vec<Cls> = op["keep"].as_array().unwrap().iter().map(|x| x.as_u64().unwrap() as Cls).collect();
             let m = &mut cage.m;
             match call(ctx, || {
                 m.retain(|k| {
@@ -1370,7 +1370,7 @@ pub fn exec_set<const N: usize>(cage: &mut Cage<Set<Key, N>>, op: &Value, ctx: &
         "s_clone_from" => {
             let mut dst = Cage::new(Set::<Key, N>::new());
             for (idx, e) in op["dst"].as_array().unwrap().iter().enumerate() {
-                let k = Key::new(e["c"].as_u64().unwrap() as u8, e["r"].as_u64().unwrap() as u8);
+                let k = Key::new(e["c"].as_u64().unwrap() as Cls, e["r"].as_u64().unwrap() as u8);
                 ctx.tags.bind_k(60 + idx as i64 + 1, k.serial);
                 dst.m.insert(k);
             }
